@@ -453,6 +453,8 @@ func TestCheck(t *testing.T) {
 			r.Bucket("configs_mode_"+c.Mode.Shape, 1)
 			if c.Anonymous {
 				r.Bucket("configs_anonymous", 1)
+			} else if c.TTL <= 1 {
+				r.Bucket(fmt.Sprintf("configs_ttl%d_%s", c.TTL, c.Mode.Shape), 1)
 			}
 			if !c.Anonymous && !(c.ProfOn && c.DevOn) {
 				r.Bucket("configs_filtering_disabled", 1)
@@ -477,6 +479,12 @@ func TestCheck(t *testing.T) {
 	r.Require("configs", int64(nWorlds*8))
 	for _, s := range shapes {
 		r.Require("configs_mode_"+s, 8)
+	}
+	for _, s := range shapes {
+		for _, ttl := range []string{"ttl0", "ttl1"} {
+			r.Require("configs_"+ttl+"_"+s, 5)
+			r.Require("stack_blocked_"+ttl+"_"+s, 15)
+		}
 	}
 	r.Require("configs_anonymous", 20)
 	r.Require("configs_filtering_disabled", 4)
@@ -591,7 +599,12 @@ func (mo *monitor) runProbe(w *world, c *cfg, st *stack.Stack, srv *agd.Server, 
 	defer cancel()
 	var reqRes filter.Result
 	var reqWinner string
-	if v.Filtering {
+	if v.Filtering && c.msgs == nil {
+		r.Bucket("direct_skipped_constructor_refused", 1)
+		r.Violation("verdict:profile-constructor-refused", "dnsmsg.NewConstructor refuses the blocking mode / filtered-response TTL of a legal profile: "+c.msgsErr,
+			witness(nil))
+	}
+	if v.Filtering && c.msgs != nil {
 		w.hpCache.clearAll()
 		f := w.storage.ForConfig(ctx, c.fconf)
 		var err error
@@ -694,6 +707,18 @@ func (mo *monitor) runProbe(w *world, c *cfg, st *stack.Stack, srv *agd.Server, 
 			return
 		}
 	}
+	// errors reported to the error collector while serving a legal requester
+	if es := out.Trace.Errors; len(es) > 0 {
+		r.Bucket("stack_errcoll_errors", int64(len(es)))
+		obs["errors_collected"] = es
+		for _, e := range es {
+			if strings.Contains(e, "creating constructor for profile") {
+				r.Violation("stack:profile-constructor-error", "the per-profile message constructor could not be created for a legal profile, "+
+					"so the requester is served with the server-wide blocking mode and TTL instead of its own: "+e,
+					witness(map[string]any{"observed": obs}))
+			}
+		}
+	}
 	if len(got.Question) != 1 || got.Question[0] != q || got.Id != uint16(1000+pi) {
 		r.Violation("stack:question-or-id", "response does not carry the original question and ID", witness(map[string]any{"observed": obs, "question": got.Question}))
 		return
@@ -771,6 +796,9 @@ func (mo *monitor) runProbe(w *world, c *cfg, st *stack.Stack, srv *agd.Server, 
 	}
 	if hit.Kind == "blocked" {
 		r.Bucket("stack_blocked_"+c.Mode.Shape+"_"+qtClass(p.QType), 1)
+		if !c.Anonymous && c.TTL <= 1 {
+			r.Bucket(fmt.Sprintf("stack_blocked_ttl%d_%s", c.TTL, c.Mode.Shape), 1)
+		}
 	}
 	// request verdict over response verdict
 	losers := []string{}
